@@ -155,7 +155,7 @@ class MPEGFrame(object):
             slot = 1
 
         frame_length = (
-            ((frame_size // 8 * self.bitrate) // self.sample_rate) +
+            ((frame_size // 8 // slot * self.bitrate) // self.sample_rate) +
             padding) * slot
 
         self.sketchy = True
